@@ -636,25 +636,46 @@ theorem mapL_congr {f g : Value → R Value} : ∀ (xs : VL) (e : Option Err) (_
     unfold mapL
     rw [h x (by simp), mapL_congr xs e (fun y hy => h y (by simp [hy]))]
 
-/-- `$.name` applied to one element that is not itself a collection, the way `select` applies it -/
-theorem select_member_elem (n : Nat) (C : Ctx) (name : Name) (x : Value)
-    (hc : Value.isIterable x = false) (hi : hasIter x = false) :
+/-- `$.name` applied to one element the way `select` applies it is `memberV name` of that element - for an
+    element of ANY kind (dictionary, collection, nested collection, scalar) that is data: no one-shot
+    iterator inside, which a variable could not hand out twice (`readVar`) -/
+theorem select_member_elem (n : Nat) (C : Ctx) (name : Name) (x : Value) (hi : hasIter x = false) :
     lamV (eval (n + 2)) C (.member (.var ['$']) name) [x] = memberV name x := by
   have hget : Ctx.get (argFrame [x] [] :: C) ['$'] = some x := by
     simp [Ctx.get, argFrame, bindNamed, bindPos, alookup, normName, Nat.toDigits, Nat.toDigitsCore, Nat.digitChar]
   simp only [lamV, applyLam, eval_succ, step, readVar, hget, hi, Bool.false_eq_true, if_false, ok_bind]
-  cases x <;> simp_all [memberOf, memberV, toIter, toV, Value.isIterable]
-  all_goals (split <;> simp)
+  cases x with
+  | dict d =>
+    simp only [memberOf, memberV]
+    cases Seq.dGet d (.str name) <;> rfl
+  | tuple l =>
+    simp only [memberOf, memberV, toIter, memberVL_eq]
+    cases mapL (memberV name) l none <;> rfl
+  | list l =>
+    simp only [memberOf, memberV, toIter, memberVL_eq]
+    cases mapL (memberV name) l none <;> rfl
+  | iter l => simp [hasIter] at hi
+  | set l => rfl
+  | null => rfl
+  | bool b => rfl
+  | int i => rfl
+  | flt f => rfl
+  | str t => rfl
+  | host h => rfl
 
-/-- `coll.name` = `coll.select($.name)` for a collection whose elements are not collections
-    themselves (dictionaries: the documented case; scalars: both raise the same exception) -/
+/-- **`coll.name` = `coll.select($.name)`** for a collection (list, tuple, lazy sequence, ordering) whose
+    elements are of ARBITRARY, also MIXED kinds: dictionaries (the documented case), collections of
+    dictionaries nested to any depth next to them (each is projected in turn - `memberV` recurses), scalars
+    (both sides raise the same exception at the same element).  The only requirement: the elements are
+    data, not one-shot iterators. -/
 theorem member_maps (n : Nat) (C : Ctx) (e : Expr) (name : Name) (r : Obj) (xs : VL) (er : Option Err)
     (hr : eval (n + 2) C e = .ok r) (hit : toIter r = some (xs, er))
-    (hel : ∀ x ∈ xs, Value.isIterable x = false ∧ hasIter x = false) :
+    (hel : ∀ x ∈ xs, hasIter x = false) :
     eval (n + 3) C (.member e name) = eval (n + 3) C (.method e .select [.member (.var ['$']) name] []) := by
   have hm : memberOf r name = (do let s ← mapL (memberV name) xs er; pure (.lazy s.1 s.2)) := by
     unfold memberOf
     split
+    · simp [toIter] at hit
     · simp [toIter] at hit
     · simp [hit]
   have hs : callMethod (eval (n + 2)) C .noMethod r .select [.member (.var ['$']) name] =
@@ -663,12 +684,272 @@ theorem member_maps (n : Nat) (C : Ctx) (e : Expr) (name : Name) (r : Obj) (xs :
     simp [hit]
   rw [eval_succ (n + 2)]
   simp only [step, hr, ok_bind, hm, hs, List.isEmpty_nil, Bool.not_true, Bool.false_eq_true, if_false]
-  rw [mapL_congr xs er (fun x hx => (select_member_elem n C name x (hel x hx).1 (hel x hx).2).symm)]
+  rw [mapL_congr xs er (fun x hx => (select_member_elem n C name x (hel x hx)).symm)]
+
+/-- what the projection of one element is, by kind: the entry of a dictionary; the projection of a nested
+    collection element by element (its own elements again of any kind); `#property#name` is unknown for
+    everything else -/
+theorem memberV_dict (name : Name) (d : KV) (v : Value) (h : Seq.dGet d (.str name) = some v) :
+    memberV name (.dict d) = .ok v := by simp [memberV, h]
+
+theorem memberV_nested (name : Name) (l vs : VL) (h : mapL (memberV name) l none = .ok (vs, none)) :
+    memberV name (.tuple l) = .ok (.iter vs) ∧ memberV name (.list l) = .ok (.iter vs) := by
+  simp [memberV, memberVL_eq, h, toV]
+
+/-- the kinds of the neighbours play no role: the projection of `pre ++ x :: post` is, at the position of
+    `x`, the projection of `x` alone (as long as the elements before it have one) -/
+theorem member_elementwise (name : Name) (x : Value) (v : Value) (hx : memberV name x = .ok v) :
+    ∀ (pre post : VL) (vs : VL), mapL (memberV name) pre none = .ok (vs, none) →
+      ∀ ws er, mapL (memberV name) post none = .ok (ws, er) →
+      mapL (memberV name) (pre ++ x :: post) none = .ok (vs ++ v :: ws, er)
+  | [], post, vs, hpre, ws, er, hpost => by
+    simp only [mapL] at hpre
+    cases hpre
+    simp [mapL, hx, capture, hpost]
+  | p :: pre, post, vs, hpre, ws, er, hpost => by
+    simp only [mapL, List.cons_append] at hpre ⊢
+    cases hp : capture (memberV name p) with
+    | error e => simp [hp] at hpre
+    | ok r =>
+      cases r with
+      | error er' => simp [hp] at hpre
+      | ok pv =>
+        simp only [hp, ok_bind] at hpre ⊢
+        cases hrest : mapL (memberV name) pre none with
+        | error e => simp [hrest] at hpre
+        | ok rest =>
+          obtain ⟨rv, re⟩ := rest
+          simp only [hrest, ok_bind] at hpre
+          cases hpre
+          have := member_elementwise name x v hx pre post rv hrest ws er hpost
+          simp [this]
+
+-- a dictionary NEXT TO a collection of dictionaries (either order, nested): the demo of seeded change C04-10
+example : run 20 (.tuple [.dict [(.str ['a'], .int 1)], .tuple [.dict [(.str ['a'], .int 2)]]]) (.member (.var ['$']) ['a']) =
+    .ok (.data (.list [.int 1, .iter [.int 2]])) := rfl
+example : run 20 (.tuple [.tuple [.dict [(.str ['a'], .int 2)]], .dict [(.str ['a'], .int 1)]]) (.member (.var ['$']) ['a']) =
+    .ok (.data (.list [.iter [.int 2], .int 1])) := rfl
+example : run 20 (.dict [(.str ['b'], .dict [(.str ['c'], .int 5)])])
+    (.member (.method (.list [.var ['$'], .list [.var ['$'], .var ['$']]]) .select [.member (.var ['$']) ['b']] []) ['c']) =
+    .ok (.data (.list [.int 5, .iter [.int 5, .int 5]])) := rfl
+example : run 20 (.tuple [.dict [(.str ['a'], .int 1)], .tuple [.dict [(.str ['a'], .int 2)], .tuple [.dict [(.str ['a'], .int 3)]]]])
+    (.method (.var ['$']) .select [.member (.var ['$']) ['a']] []) =
+    .ok (.data (.list [.int 1, .iter [.int 2, .iter [.int 3]]])) := rfl
+-- a scalar among them: the projection raises when it gets there
+example : run 20 (.tuple [.dict [(.str ['a'], .int 1)], .int 7]) (.member (.var ['$']) ['a']) = .error .unknownFunction := rfl
 
 example : run 20 (.tuple [.dict [(.str ['a'], .int 1)], .dict [(.str ['a'], .int 2)]]) (.member (.var ['$']) ['a']) =
     .ok (.data (.list [.int 1, .int 2])) := rfl
 example : run 20 (.tuple [.dict [(.str ['a'], .int 1)], .dict [(.str ['a'], .int 2)]])
     (.method (.var ['$']) .select [.member (.var ['$']) ['a']] []) = .ok (.data (.list [.int 1, .int 2])) := rfl
+
+/-! ## how the data enters: variables at every depth of the host's chain
+
+"Named variables resolve through the enclosing scopes": the outermost scopes are the contexts of the
+HOST.  `hostCtx layers k doc` is the chain a host prepared - its layers from the root upwards (the
+root may be the context it handed to `yaql.create_context(context=..)`: below the layers of the
+standard library, which bind no variable and are therefore invisible, `empty_frame_invisible`) with
+`$` bound above the first `k` of them (`k = 0`: `yaql.create_context(data=doc)`; `k = length`:
+`evaluate(data=doc, context=top)`).  Below: a variable bound at ANY depth of that chain is what a
+read returns from ANY scope the program has entered (lambda applications, `let` chains, `def`
+bodies are frames `pre` on top of the chain) unless a nearer frame binds the name; and where in the
+chain `$` is bound makes no difference to any lookup. -/
+
+/-- the lookup through a chain that does not bind the name falls through to what is below -/
+theorem get_append_none (pre : Ctx) (C : Ctx) (x : Name)
+    (hpre : ∀ G ∈ pre, alookup (normName x) G.vars = none) : Ctx.get (pre ++ C) x = Ctx.get C x := by
+  induction pre with
+  | nil => rfl
+  | cons G pre ih =>
+    simp only [List.cons_append, Ctx.get, hpre G (by simp)]
+    exact ih (fun G' hG' => hpre G' (by simp [hG']))
+
+/-- **a host variable is visible from every scope**: bound in layer `F` of the host's chain (any depth:
+    `above` are the host's contexts over it, `below` the ones under it - the library layers, the root),
+    read from inside any stack `pre` of scopes the program has entered, it is `F`'s value, provided no
+    nearer frame binds the name. -/
+theorem host_var_visible (n : Nat) (pre above below : Ctx) (F : Frame) (x : Name) (v : Value)
+    (hpre : ∀ G ∈ pre, alookup (normName x) G.vars = none)
+    (habove : ∀ G ∈ above, alookup (normName x) G.vars = none)
+    (hF : alookup (normName x) F.vars = some v) (hv : hasIter v = false) :
+    eval (n + 1) (pre ++ above ++ F :: below) (.var x) = .ok (.val v) := by
+  have h : Ctx.get (pre ++ above ++ F :: below) x = some v := by
+    rw [List.append_assoc]
+    rw [get_append_none pre _ x hpre]
+    exact shadowing above F below x v habove hF
+  rw [eval_var, readVar, h]
+  simp [hv]
+
+/-- ... and an upper host context shadows a lower one (the same theorem read the other way round: whatever
+    `below` binds under the name is never consulted) -/
+theorem host_var_topmost (above below below' : Ctx) (F : Frame) (x : Name) (v : Value)
+    (habove : ∀ G ∈ above, alookup (normName x) G.vars = none) (hF : alookup (normName x) F.vars = some v) :
+    Ctx.get (above ++ F :: below) x = Ctx.get (above ++ F :: below') x := by
+  rw [shadowing above F below x v habove hF, shadowing above F below' x v habove hF]
+
+/-- the frame that binds the document answers `$` / `$1` and nothing else -/
+theorem docFrame_lookup (doc : Value) (x : Name) :
+    alookup (normName x) ({ vars := [(['$', '1'], doc)] } : Frame).vars =
+      if normName x = ['$', '1'] then some doc else none := by
+  by_cases h : normName x = ['$', '1']
+  · simp [alookup, h]
+  · have : (['$', '1'] == normName x) = false := by
+      simp only [beq_eq_false_iff_ne, ne_eq]
+      exact fun h' => h h'.symm
+    simp [alookup, h, this]
+
+/-- where in the chain the document is bound makes no difference to any lookup: for host layers none of
+    which binds `$1` itself, `$` bound under all of them (`yaql.create_context(data=doc)`), between any
+    two of them, or above all of them (`evaluate(data=doc, ..)`) reads alike - every variable, from every
+    scope `pre` of the program. -/
+theorem doc_position_irrelevant (pre upper lower : Ctx) (doc : Value) (x : Name)
+    (hup : ∀ G ∈ upper, alookup ['$', '1'] G.vars = none) :
+    Ctx.get (pre ++ upper ++ { vars := [(['$', '1'], doc)] } :: lower) x =
+    Ctx.get (pre ++ { vars := [(['$', '1'], doc)] } :: (upper ++ lower)) x := by
+  induction pre with
+  | cons G pre ih => simp only [List.cons_append, Ctx.get]; rw [ih]
+  | nil =>
+    simp only [List.nil_append]
+    by_cases h : normName x = ['$', '1']
+    · have h1 : Ctx.get (upper ++ { vars := [(['$', '1'], doc)] } :: lower) x = some doc :=
+        shadowing upper _ lower x doc (fun G hG => by rw [h]; exact hup G hG) (by rw [docFrame_lookup]; simp [h])
+      rw [h1]
+      simp [Ctx.get, alookup, h]
+    · have hd : alookup (normName x) ({ vars := [(['$', '1'], doc)] } : Frame).vars = none := by
+        rw [docFrame_lookup]; simp [h]
+      simp only [Ctx.get, hd]
+      induction upper with
+      | nil => simp [Ctx.get, hd]
+      | cons U upper ihu =>
+        simp only [List.cons_append, Ctx.get]
+        cases alookup (normName x) U.vars with
+        | some v => rfl
+        | none => exact ihu (fun G hG => hup G (by simp [hG]))
+
+/-- `$` from every scope, wherever the host bound it: no scope of the program and no host context above the
+    binding binds `$1` -> the read is the document -/
+theorem dollar_from_any_depth (n : Nat) (pre upper lower : Ctx) (doc : Value)
+    (hpre : ∀ G ∈ pre, alookup ['$', '1'] G.vars = none) (hup : ∀ G ∈ upper, alookup ['$', '1'] G.vars = none)
+    (hd : hasIter doc = false) :
+    eval (n + 1) (pre ++ upper ++ { vars := [(['$', '1'], doc)] } :: lower) (.var ['$']) = .ok (.val doc) :=
+  host_var_visible n pre upper lower _ ['$'] doc (by simpa [normName] using hpre) (by simpa [normName] using hup)
+    (by simp [normName, alookup]) hd
+
+/-- the plain entry is the host chain without layers -/
+theorem runHost_nil (fuel : Nat) (doc : Value) (e : Expr) : runHost fuel [] 0 doc e = run fuel doc e := rfl
+
+-- the demos of seeded change C04-11 on the model: `yaql.create_context(data=doc)` (`$` under everything),
+-- host variables in the context handed to `create_context(context=..)` (layer 0), read from a lambda, a let chain, a def body
+example : runHost 20 [[(['e', 'n', 'v'], .str ['p'])], [(['l', 'i', 'm'], .int 2)]] 0 (.tuple [.int 1, .int 5])
+    (.list [.var ['$', 'e', 'n', 'v'], .method (.var ['$']) .where_ [.bin .gt (.var ['$']) (.var ['$', 'l', 'i', 'm'])] []]) =
+    .ok (.data (.list [.str ['p'], .iter [.int 5]])) := rfl
+example : runHost 20 [[(['e', 'n', 'v'], .str ['p'])], []] 2 (.int 7)
+    (.arrow (.call .def_ [.kw ['f'], .list [.var ['$', 'e', 'n', 'v'], .var ['$', '1']]] [])
+      (.arrow (.call .let_ [] [(.kw ['e', 'n', 'v'], .lit (.int 0))]) (.list [.ucall ['f'] [.lit (.int 1)] [], .var ['$', 'e', 'n', 'v'], .var ['$']]))) =
+    .ok (.data (.list [.tuple [.str ['p'], .int 1], .int 0, .int 7])) := rfl
+-- an upper host context shadows a lower one
+example : runHost 20 [[(['r'], .int 1)], [(['r'], .int 2)], []] 1 .null (.var ['$', 'r']) = .ok (.data (.int 2)) := rfl
+-- host_var_visible is not vacuous: a lambda frame and a let frame over a three-context chain, the variable in the root
+example : eval 5 ([argFrame [.int 9] [], { vars := [(['$', 'k'], .int 0)] }] ++ [{ vars := [(['$', 'm'], .int 3)] }] ++
+      ({ vars := [(['$', 'e'], .int 4)] } : Frame) :: [{}]) (.var ['$', 'e']) = .ok (.val (.int 4)) :=
+  host_var_visible 4 _ _ _ _ ['$', 'e'] (.int 4) (by decide) (by decide) rfl rfl
+
+/-! ## arguments passed by keyword
+
+How an argument is passed changes nothing about what it means: `Expr.positional` moves every keyword
+argument of a builtin method to the position of the parameter of that name (the name the default
+convention gives it: `keySelector`, not `key_selector`), and the program is evaluated in that form
+(`runKw`).  So a lambda passed by keyword is the lambda passed positionally - lazy, applied in a child
+of the call's context, its `$` the argument of the innermost application (`lambda_binds_innermost`
+and the other lambda theorems then speak about it). -/
+
+abbrev kwKeySelector : Name := ['k', 'e', 'y', 'S', 'e', 'l', 'e', 'c', 't', 'o', 'r']
+abbrev kwValueSelector : Name := ['v', 'a', 'l', 'u', 'e', 'S', 'e', 'l', 'e', 'c', 't', 'o', 'r']
+abbrev kwSelector : Name := ['s', 'e', 'l', 'e', 'c', 't', 'o', 'r']
+abbrev kwPredicate : Name := ['p', 'r', 'e', 'd', 'i', 'c', 'a', 't', 'e']
+
+/-- `xs.toDict(keySelector => k, valueSelector => v)`, the same with the keywords the other way round, and
+    `xs.toDict(k, valueSelector => v)` are `xs.toDict(k, v)` -/
+theorem toDict_by_keyword (e k v : Expr) :
+    (Expr.method e .toDict [] [(.kw kwKeySelector, k), (.kw kwValueSelector, v)]).positional =
+      .method e.positional .toDict [k.positional, v.positional] [] ∧
+    (Expr.method e .toDict [] [(.kw kwValueSelector, v), (.kw kwKeySelector, k)]).positional =
+      .method e.positional .toDict [k.positional, v.positional] [] ∧
+    (Expr.method e .toDict [k] [(.kw kwValueSelector, v)]).positional =
+      .method e.positional .toDict [k.positional, v.positional] [] ∧
+    (Expr.method e .toDict [] [(.kw kwKeySelector, k)]).positional = .method e.positional .toDict [k.positional] [] := by
+  refine ⟨?_, ?_, ?_, ?_⟩ <;> simp [Expr.positional, positionalL, positionalP, placeMethod, kwParams, kwName, placeKw,
+    noGap, provided, nodup, List.mapM_cons, List.mapM_nil]
+
+/-- a lambda passed by keyword IS the lambda passed positionally -/
+theorem lambda_by_keyword (e b : Expr) :
+    (Expr.method e .select [] [(.kw kwSelector, b)]).positional = .method e.positional .select [b.positional] [] ∧
+    (Expr.method e .where_ [] [(.kw kwPredicate, b)]).positional = .method e.positional .where_ [b.positional] [] ∧
+    (Expr.method e .orderBy [] [(.kw kwSelector, b)]).positional = .method e.positional .orderBy [b.positional] [] := by
+  refine ⟨?_, ?_, ?_⟩ <;> simp [Expr.positional, positionalL, positionalP, placeMethod, kwParams, kwName, placeKw,
+    noGap, provided, nodup, List.mapM_cons, List.mapM_nil]
+
+/-- ... hence inside it `$` is the element it is applied to, whatever `$` is outside: evaluated, a `select`
+    whose selector is passed by keyword maps the selector over the elements, each application in a child
+    `argFrame [x] [] :: C` of the call's context -/
+theorem select_by_keyword (n : Nat) (C : Ctx) (e b : Expr) (r : Obj) (xs : VL) (er : Option Err)
+    (hr : eval n C e.positional = .ok r) (hit : toIter r = some (xs, er)) :
+    eval (n + 1) C (Expr.method e .select [] [(.kw kwSelector, b)]).positional =
+      (do let s ← mapL (fun x => do let o ← eval n (argFrame [x] [] :: C) b.positional; toV o) xs er
+          pure (.lazy s.1 s.2)) := by
+  rw [(lambda_by_keyword e b).1]
+  simp only [eval_succ, step, hr, ok_bind, List.isEmpty_nil, Bool.not_true, Bool.false_eq_true, if_false]
+  unfold callMethod
+  simp [hit]
+  rfl
+
+/-- a keyword that names no parameter (also: the PYTHON name `key_selector`, a positional argument named
+    again) matches no overload: the receiver is evaluated, then NoMatchingMethodException -/
+theorem noOverload_raises (n : Nat) (C : Ctx) (e : Expr) (f : Fn) (ps : List (Name × Bool)) (r : Obj)
+    (hf : kwParams f = some ps) (hr : eval n C e = .ok r) :
+    eval (n + 1) C (noOverload e f) = .error .noMethod := by
+  simp only [noOverload, eval_succ, step, hr, ok_bind, List.isEmpty_nil, Bool.not_true, Bool.false_eq_true, if_false]
+  cases f <;> simp [kwParams] at hf <;> rfl
+
+example : (Expr.method (.var ['$']) .toDict [] [(.kw ['k', 'e', 'y', '_', 's', 'e', 'l', 'e', 'c', 't', 'o', 'r'], .var ['$'])]).positional =
+    noOverload (.var ['$']) .toDict := rfl
+
+mutual
+/-- a program that passes no argument of a method by keyword is evaluated as it is -/
+theorem positional_id : ∀ e : Expr, NoKw e → e.positional = e
+  | .lit _, _ => rfl
+  | .kw _, _ => rfl
+  | .var _, _ => rfl
+  | .list es, h => by simp only [Expr.positional, positionalL_id es h]
+  | .map kvs, h => by simp only [Expr.positional, positionalP_id kvs h]
+  | .index e args, h => by simp only [Expr.positional, positional_id e h.1, positionalL_id args h.2]
+  | .un _ e, h => by simp only [Expr.positional, positional_id e h]
+  | .bin _ a b, h => by simp only [Expr.positional, positional_id a h.1, positional_id b h.2]
+  | .arrow l r, h => by simp only [Expr.positional, positional_id l h.1, positional_id r h.2]
+  | .member e _, h => by simp only [Expr.positional, positional_id e h]
+  | .call _ args kw, h => by simp only [Expr.positional, positionalL_id args h.1, positionalP_id kw h.2]
+  | .ucall _ args kw, h => by simp only [Expr.positional, positionalL_id args h.1, positionalP_id kw h.2]
+  | .method e f args kw, h => by
+    obtain ⟨h1, h2, h3⟩ := h
+    subst h3
+    simp only [Expr.positional, positional_id e h1, positionalL_id args h2, positionalP, placeMethod]
+  | .umethod e _, h => by simp only [Expr.positional, positional_id e h]
+theorem positionalL_id : ∀ es : List Expr, NoKwL es → positionalL es = es
+  | [], _ => rfl
+  | e :: es, h => by simp only [positionalL, positional_id e h.1, positionalL_id es h.2]
+theorem positionalP_id : ∀ ps : List (Expr × Expr), NoKwP ps → positionalP ps = ps
+  | [], _ => rfl
+  | (k, v) :: r, h => by simp only [positionalP, positional_id k h.1, positional_id v h.2.1, positionalP_id r h.2.2]
+end
+
+-- the demos of seeded change C04-12 on the model: the selectors see THEIR element, not the caller's `$`
+example : runKw 30 [] 0 (.tuple [.dict [(.str ['k'], .str ['a']), (.str ['v'], .int 1)], .dict [(.str ['k'], .str ['b']), (.str ['v'], .int 2)]])
+    (.method (.var ['$']) .toDict [] [(.kw kwKeySelector, .member (.var ['$']) ['k']), (.kw kwValueSelector, .member (.var ['$']) ['v'])]) =
+    .ok (.data (.dict [(.str ['a'], .int 1), (.str ['b'], .int 2)])) := rfl
+example : runKw 30 [] 0 (.tuple [.tuple [.int 1, .int 2], .tuple [.int 3]])
+    (.method (.var ['$']) .select [.method (.var ['$']) .toDict [] [(.kw kwKeySelector, .var ['$']),
+      (.kw kwValueSelector, .bin .mul (.var ['$']) (.lit (.int 10)))]] []) =
+    .ok (.data (.list [.dict [(.int 1, .int 10), (.int 2, .int 20)], .dict [(.int 3, .int 30)]])) := rfl
 
 /-! ## frame: evaluation hands back no modified version of a pre-existing context
 
@@ -1056,9 +1337,10 @@ example : eval 3 ([{ vars := [(['$', 'k'], .int 2)] }] ++
     .ok (.val (.int 1)) := rfl
 example : ∀ G ∈ [({ vars := [(['$', 'k'], .int 2)] } : Frame)], alookup ['f'] G.funs = none := by decide
 
--- member_maps: a collection of dictionaries satisfies the element hypothesis
-example : ∀ x ∈ [Value.dict [(.str ['a'], .int 1)], Value.dict [(.str ['a'], .int 2)]],
-    Value.isIterable x = false ∧ hasIter x = false := by decide
+-- member_maps: a collection of MIXED element kinds (a dictionary, a collection of dictionaries nested twice, a scalar)
+-- satisfies the element hypothesis
+example : ∀ x ∈ [Value.dict [(.str ['a'], .int 1)], Value.tuple [.dict [(.str ['a'], .int 2)], .list [.dict []]], Value.int 3],
+    hasIter x = false := by decide
 
 -- fuel_mono: a definite outcome at fuel 4 is the outcome at fuel 400
 example : eval 400 [] (.bin .add (.lit (.int 1)) (.lit (.int 2))) = .ok (.val (.int 3)) :=
